@@ -18,6 +18,8 @@
 (* before it acts).  Outcomes of do() are chosen when do() is entered (token "do": the driver's script).   *)
 (* Threads that resume because another thread unblocked them (a joiner after the loop died) touch no       *)
 (* shared field afterwards, so their order against the running thread does not matter.                     *)
+(* The loop's ordinary sleep (one of Sleeps, with the backoff parameters BMin / BMax / BMulP / BMulQ) is    *)
+(* part of the schedule: the driver passes it to start(sleep=...).                                          *)
 EXTENDS Runnable, Json
 CONSTANTS MaxTok,
           PreBoot     \* with PreStarted: the initial state is the one right after the first start() has returned
@@ -47,7 +49,7 @@ GenInit == /\ Init /\ h = <<>> /\ mode = "poll"
 GenInitBoot ==          \* Init with the loop thread of the first start() held at "boot"
   /\ PreStarted /\ PreBoot
   /\ sh = [stopping |-> FALSE, shutdown |-> FALSE, intr |-> 0, flag |-> FALSE, thread |-> 1, gen |-> 1, tst |-> "alive"]
-  /\ lp = [pc |-> "runE", k |-> 0, out |-> "did", ndo |-> 0]
+  /\ \E s \in Sleeps : lp = LpInit("runE", BCfg(s))
   /\ ac = [a \in Actors |-> AIdle] /\ ncalls = 0
   /\ g = [GInit EXCEPT !.run = TRUE] /\ ga = GAInit(Actors) /\ bad = {}
   /\ h = <<>> /\ mode = "poll" /\ parked = [t \in Actors |-> IF t = 0 THEN "boot" ELSE ""]
@@ -72,7 +74,7 @@ LoopRun ==
       \/ LFin1 \/ LFin3 \/ LFin4 \/ LDie \/ LFinE \/ LDone \/ LExit) /\ NoPark /\ Keep
   \/ mode = "poll" /\ LSl2t /\ NoPark /\ Keep
   \/ \E o \in AllOutcomes : LDo(o) /\ Park(0, "do") /\ h' = Append(h, [k |-> "do", a |-> 0, x |-> o, pre |-> Status]) /\ UNCHANGED mode
-  \/ LSleepE(TRUE) /\ Park(0, "sleep") /\ Keep
+  \/ LSleepE(Request(lp.bp, lp.b)) /\ Park(0, "sleep") /\ Keep
 Run(t) == IF t = 0 THEN (IF InSelfStop THEN ActorRun(0) ELSE LoopRun) ELSE ActorRun(t)
 
 MinRunner == CHOOSE t \in Runners : \A u \in Runners : t <= u
@@ -97,5 +99,5 @@ Settled == Runners = {}
 CanToken == \/ \E t \in Actors : parked[t] # ""
             \/ \E c \in Ctls : ac[c].pc = "idle" /\ ncalls < MaxCalls
 \* a schedule is emitted when it cannot be extended (token budget used up, or nothing left to choose)
-Emit == (Settled /\ (Len(h) >= MaxTok \/ ~CanToken)) => PrintT("@@" \o ToJson([toks |-> h, fin |-> Status]))
+Emit == (Settled /\ (Len(h) >= MaxTok \/ ~CanToken)) => PrintT("@@" \o ToJson([toks |-> h, fin |-> Status, sleep |-> lp.bp.norm]))
 =============================================================================
